@@ -233,6 +233,7 @@ def rule_G(ctx):
     """C17.G abs_curv and speed on configuration classes, by interpretation of computeAbsCurv / estimate_speed (and of the
     repository's Track, ENUCoords, ObsTime, Integrator classes beneath them)"""
     import math
+    import itertools
     from .. import absint, orders
     fa = ctx.prog.func(CIN + '.computeAbsCurv')
     fs = ctx.prog.func(CIN + '.estimate_speed')
@@ -267,9 +268,12 @@ def rule_G(ctx):
         def distanceTo(self, o):
             return self.position.call('distanceTo', o.position)
 
-    def stamp(sec_of_day, ms=0, day=15):
+    def stamp(sec_of_day, ms=0, day=15, wrap=int):
         s = int(sec_of_day)
-        return OT(2021, 3, day, s // 3600, (s // 60) % 60, s % 60, ms)
+        return OT(2021, 3, day, s // 3600, (s // 60) % 60, wrap(s % 60), ms)
+    # coordinates and the seconds field held as numpy scalars (values taken from numpy arrays or data-frame columns): elapsed times and
+    # distances are then numpy scalars too, for which a division by zero is inf/nan instead of an exception
+    KINDS = {'Python numbers': (float, int), 'numpy scalars': (npstub.NpF64, lambda v: npstub.NpInt(v, 'int64'))}
     base_t = 12 * 3600
     # (name, positions (E, N, U), times as (seconds of the day, ms, day))
     shapes = {
@@ -298,9 +302,15 @@ def rule_G(ctx):
             return False
         return abs(a - b) <= 1e-9 * max(1.0, abs(a), abs(b))
 
-    for sname, (pts, times) in shapes.items():
+    np_shapes = ('generic line, 1 s sampling', 'two fixes with the same timestamp', 'neighbours of a fix share a timestamp', 'neighbours of a fix share position and timestamp', 'two fixes')
+    for (sname, (pts, times)), (kname, (wc, ws)) in itertools.product(shapes.items(), KINDS.items()):
+        if kname != 'Python numbers' and sname not in np_shapes:
+            continue
+        if kname != 'Python numbers':
+            sname = sname + ' [coordinates and seconds held as numpy scalars]'
+
         def build():
-            return T([O(k, EN(float(p_[0]), float(p_[1]), float(p_[2])), stamp(*tm)) for k, (p_, tm) in enumerate(zip(pts, times))], 'u', 't')
+            return T([O(k, EN(wc(float(p_[0])), wc(float(p_[1])), wc(float(p_[2]))), stamp(*tm, wrap=ws)) for k, (p_, tm) in enumerate(zip(pts, times))], 'u', 't')
         n = len(pts)
         legs = [0.0] + [math.hypot(pts[k][0] - pts[k - 1][0], pts[k][1] - pts[k - 1][1]) for k in range(1, n)]
         want_s = [sum(legs[:k + 1]) for k in range(n)]
